@@ -138,6 +138,24 @@ def run(idx: Index, rep: Report, tier: str) -> None:
     rep.note_function(hs.qualname)
     txt = norm(eq.node)
     ok = "hash(self) == hash(oth)" in txt and "self._values == oth._values" in txt
+    if not ok:
+        # the same, however it is laid out: wherever the two _values maps are compared, hash(self) and hash(oth) (which
+        # condense the operands) have been evaluated before on every path
+        ecfg = cfg_of(eq)
+
+        def _has(n, what):
+            return n.ast is not None and any(isinstance(c, ast.Call) and norm(c) == what for c in ast.walk(n.ast))
+
+        def _cmp_values(n):
+            return n.ast is not None and any(isinstance(c, ast.Compare) and len(c.ops) == 1 and isinstance(c.ops[0], (ast.Eq, ast.NotEq)) and {norm(c.left), norm(c.comparators[0])} == {"self._values", "oth._values"} for c in ast.walk(n.ast))
+
+        cmps = [n for n in ecfg.nodes if _cmp_values(n)]
+        ok = bool(cmps)
+        for n in cmps:
+            for what in ("hash(self)", "hash(oth)"):
+                hn = {m for m in ecfg.nodes if _has(m, what)}
+                same = n in hn and norm(n.ast).index(what) < min(norm(n.ast).index(x) for x in ("self._values", "oth._values") if x in norm(n.ast))
+                ok = ok and bool(hn) and (same or ecfg.path_avoiding(ecfg.entry, n, hn - {n}) is None and n not in hn or same)
     rep.check(ok, rule4, "__eq__ compares _values after both operands were condensed through hash()", eq.loc(), construct="hash(self) == hash(oth) and self._values == oth._values", detail="" if ok else "two states with the same valuation but different update histories compare unequal", function=eq.qualname)
     hcfg = cfg_of(hs)
     cond = [s for s in hs.node.body if isinstance(s, ast.Expr) and isinstance(s.value, ast.Call) and call_name(s.value) == "_condense_state"]
